@@ -200,8 +200,9 @@ def run(ctx):
     # MEM closed form normalisation
     th = P("theta")
     a1, b1, a2, b2 = (P(n, real=True) for n in ("a1", "b1", "a2", "b2"))
+    from .fc import inline_value_calls as _inline
     for q in (EST + "mem._mem", EST + "mem.numba_mem"):
-        fm = p.get_function(q)
+        fm = _inline(p, p.get_function(q))        # private helpers (shared harmonics, ...) are seen through
         it_m = Interp(p)
         rm = T.to_term(it_m.call_function(fm, [th, a1, b1, a2, b2], {}, None))
         sums = [x for x in T.find_ops(rm, "sum")]
